@@ -38,7 +38,7 @@ func genMethodStrings(rng *rand.Rand, names []string, n int) []string {
 	var pool []string
 	for _, nm := range append([]string{"org.varlink.service"}, names...) {
 		pool = append(pool, nm+".M", nm, nm+".", nm+"..M", "."+nm+".M", nm+".M.N", nm+"x.M", "x"+nm+".M", strings.ToUpper(nm)+".M", strings.ToLower(nm)+".M",
-			nm+".GetInfo", nm+".é", nm+". M", nm+" .M", nm+".\u0000")
+			nm+".GetInfo", nm+".é", nm+". M", nm+" .M", nm+".\u0000", " "+nm+".M", nm+".M ", "\t"+nm+".M", nm+".M\n", "\u00a0"+nm+".M", nm+".M\u2003", "\r\n"+nm+".M\r\n")
 		if len(nm) > 1 {
 			pool = append(pool, nm[:len(nm)-1]+".M", nm[1:]+".M", nm[:len(nm)/2]+".M", nm[:len(nm)-1], nm[:len(nm)/2]+"."+nm[len(nm)/2:]+".M")
 		}
@@ -66,12 +66,17 @@ func c04Conn(rng *rand.Rand, names []string, tag string, nm int) *ConnScript {
 	for i, m := range genMethodStrings(rng, names, nm) {
 		id := fmt.Sprintf("%s.%d", tag, i)
 		c := GenCall{Method: m}
+		if rng.Intn(3) == 0 {
+			c.Flags = c01Flags[rng.Intn(len(c01Flags))] // routing and the standard errors must not depend on the flags
+		}
 		switch rng.Intn(4) {
 		case 0:
 			c.Script = &CallScript{ID: id, Steps: []Step{{Op: "reply"}}}
 		case 1:
 			c.Script = &CallScript{ID: id, Steps: []Step{{Op: "reply", Cont: true}, {Op: "reply"}}}
-			c.Flags = "m"
+			if !strings.Contains(c.Flags, "m") {
+				c.Flags += "m"
+			}
 		case 2:
 			c.Params = `{"interface":"a.b"}`
 		}
